@@ -363,7 +363,9 @@ def gen_program(rng, max_calls=8):
             # (writer.write_segment(ChannelObject(g, n, a) for n, a in data.items()))
             'objects_as': rng.choice(['list'] * 7 + ['tuple', 'generator', 'generator']),
             # the caller builds its objects once and updates them in place before each further write_segment call
-            'keep_objects': rng.random() < 0.15}
+            'keep_objects': rng.random() < 0.15,
+            # in-memory destinations whose truth value is False
+            'falsy_streams': rng.random() < 0.2}
 
 
 # ------------------------------------------------------------------------------ materialisation
